@@ -110,6 +110,10 @@ Definition usable_nameb (r : str) : bool :=
 (* the defect classes the models know about *)
 Definition keyword_not_reserved (r : str) : bool := is_keyword r && negb (is_reserved r).
 
+(* verdict on one generated name: 0 usable, 1 keyword missing from stop_words, 2 not an identifier *)
+Definition name_verdict (r : str) : N :=
+  if usable_nameb r then 0 else if keyword_not_reserved r then 1 else 2.
+
 (* names reaching final_field_name: for an enumeration class the members are constants *)
 Definition final_names (cv : conventions) (enum : bool) (l : list attr) : list sres :=
   map (fun a => if enum then constant_name cv (a_name a) else field_name cv (a_name a)) l.
